@@ -70,6 +70,36 @@ func loadPropConfigs() (map[string]*PropConfig, error) {
 	if err := json.Unmarshal(data, &m); err != nil {
 		return nil, err
 	}
+	// props.d/*.json: additional per-property configuration (one file per work area, merged by property id)
+	extra, _ := filepath.Glob(filepath.Join(verifRoot(), "props.d", "*.json"))
+	sort.Strings(extra)
+	for _, f := range extra {
+		d, err := os.ReadFile(f)
+		if err != nil {
+			return nil, err
+		}
+		mm := map[string]*PropConfig{}
+		if err := json.Unmarshal(d, &mm); err != nil {
+			return nil, fmt.Errorf("%s: %v", f, err)
+		}
+		for k, v := range mm {
+			if cur, ok := m[k]; ok {
+				for _, p := range v.Patterns {
+					cur.Patterns = appendUniq(cur.Patterns, p)
+				}
+				cur.Expect = append(cur.Expect, v.Expect...)
+				cur.Assumptions = append(cur.Assumptions, v.Assumptions...)
+				if v.NotDecided != "" {
+					cur.NotDecided = strings.TrimSpace(cur.NotDecided + " " + v.NotDecided)
+				}
+				if v.MinFuncs > cur.MinFuncs {
+					cur.MinFuncs = v.MinFuncs
+				}
+			} else {
+				m[k] = v
+			}
+		}
+	}
 	return m, nil
 }
 
